@@ -65,6 +65,7 @@ namespace
             int64_t max_el = r.pick<int64_t>({0, 1, 3, 6, 11});
             p.cfg = {max_str, max_el};
             int n = (int)r.range(1, cut ? 4 : 6);
+            if (!cut && r.chance(1, 40)) n = (int)r.range(100, 300); // a long stream through one writer / one reader
             for (int i = 0; i < n; i++)
             {
                 bool big = tier == THOROUGH ? r.chance(1, 12) : r.chance(1, 40);
